@@ -152,6 +152,30 @@ def run():
                 ck.reject(f"C07:raised-kind:{K}:{form}", f"{kreqs[[r['id'] for r in kreqs].index(f'k{K}.{form}')]['src']!r} gives {got}, expected {w}",
                           {"src": kreqs[[r["id"] for r in kreqs].index(f"k{K}.{form}")]["src"], "observed": got, "expected": w})
     ck.cov["raised_kind_programs"] = len(kreqs)
+    # "... or else ends the program with that error", where the program is a run of the test driver over a directory: a file that raises
+    # makes the run end with that error (reported on stderr, status 1), wherever the file stands among passing files
+    raisers = [('raise Err.new("boom")', "Err: boom"), ("1 / 0", "ZeroDivisionErr: cannot be divided by 0"), ("undefinedname + 1", "NameErr: name `undefinedname` is not defined"),
+               ("assertEq(1, 2)", "AssertionErr: 1 != 2"), ('f := {|| raise ValueErr.new("deep")}; [1, 2]@{|x| f()}', "ValueErr: deep")]
+    passing = ['assertEq(1, 1)', '"quiet"', 'assert(true)']
+    treqs, twant = [], {}
+    for k, (rs, msg) in enumerate(raisers):
+        for shape, progs in (("first", [rs, passing[0]]), ("middle", [passing[1], rs, passing[2]]), ("last", [passing[0], passing[1], rs]), ("only", [rs])):
+            rid = f"t{k}.{shape}"
+            treqs.append({"id": rid, "mode": "session", "embed": "runtest", "progs": progs, "helpers": [""] * len(progs), "shared": {}, "stdin": "", "deadline_ms": 20000})
+            twant[rid] = (progs, msg)
+    tout = run_cases(treqs, label="C07 test-driver runs", isolate=True)
+    for rid, (progs, msg) in twant.items():
+        o = tout[rid]
+        obs = (o.get("extra") or {}).get("obs") or []
+        if str(o["end"]).startswith(("discarded:", "fuel:")) or not obs:
+            if pvlib.is_host_crash(str(o["end"])):
+                ck.reject("C07:test-driver:host-crash", f"test run over {progs}: {o['end']}", {"programs": progs, "observed": o["end"]})
+            continue
+        tail = obs[-1]
+        if "\x1dexit:1" not in tail or msg not in tail:
+            ck.reject(f"C07:test-driver:{rid.split('.')[1]}", f"a test run over the files {progs}: the file that raises `{msg}` does not end the run with that error (status 1, the error reported): {tail[-200:]!r}",
+                      {"programs": progs, "observed": obs, "expected": f"stderr naming {msg}, exit:1"})
+    ck.cov["test_driver_runs"] = len(treqs)
     reached = sum(1 for r in res.values() if r["status"] == "ok" and "out:70" in r["observed"]["ev"] and "out:71" not in r["observed"]["ev"])
     ck.cov["evaluations"] = len(fam)
     ck.cov["distinct_nontrivial"] = reached
@@ -160,7 +184,7 @@ def run():
     ck.cov["rule"] = (f"{len(evalfam.HOSTS)} host constructs (operands, elements, *spread, pair values, range bounds, positional / keyword / **arguments, keyword "
                       "defaults, receiver, callee, condition/branches, embedded-string parts, assignment, index, literal call, jump guard, nesting) x every child "
                       "position x raise kinds (Err.new, 1/0, undefined name, missing property) x nesting (top, function, method, literal call, function with "
-                      "defer) x handler (none, try, thoughtful chain); histories of 3 operations over an iterator whose recur argument raises after the yield (PanIter); 3 lazy sources x 45 library consumers x 3 raise kinds x (none, try), judged against the quiet run of the same consumer; non-trivial = accepted runs in which the statement was entered (marker 70) and did "
+                      "defer) x handler (none, try, thoughtful chain); histories of 3 operations over an iterator whose recur argument raises after the yield (PanIter); 3 lazy sources x 45 library consumers x 3 raise kinds x (none, try), judged against the quiet run of the same consumer; 20 runs of the test driver over directories in which one file raises; non-trivial = accepted runs in which the statement was entered (marker 70) and did "
                       "not complete (no marker 71)")
     ck.assumptions = ["list/reduce chain positions are covered by C04's chain machine", "conversion hooks (B, S, ==) are never the raise site"]
     if st["ok"] + st["mismatch"] < len(fam) * 0.9:
